@@ -45,7 +45,7 @@ theorem pre_chop (p : Parser) (A : Abs) (h : Pre p A) (hne : rest p ≠ [])
         rw [hpre]; exact rest_bix_succ p c r hr
       refine ⟨{ A with sc := stepSc A.sc c }, ⟨?_, ?_, ?_⟩, ?_, rfl, ?_⟩
       · rw [hpre]
-        refine ⟨h.rel.fits, h.rel.over, h.rel.comp, h.rel.log, ?_⟩
+        refine ⟨h.rel.skip, h.rel.stash, h.rel.comp, h.rel.log, ?_⟩
         show false = true ↔ (stepSc A.sc c).pend = true
         rw [stepSc_pend_fold _ _ hpend hf]
       · have := stepA_inv A c h.inv
